@@ -116,6 +116,16 @@ Theorem update_forms_rerender_identical : forall o m z max_size request_payload 
 Proof. exact update_forms_rerender_stmt. Qed.
 Print Assumptions update_forms_rerender_identical.
 
+(* known finding C03-update-meta-class-spelling, as a theorem: "the parsed message has the same records" does NOT
+   hold for the in-memory spelling that UpdateMessage.present(name) / absent(...) / delete(name) produce (class
+   ANY or NONE, deleting = None): it renders to the octets of the reader's normal form (zone class, deleting = ANY
+   or NONE), so the parsed record set has another class than the rendered one - while re-rendering is identical *)
+Theorem update_meta_spelling_refuted :
+  exists m w m', to_wire m None 0 0 false 0 = Ok w /\ from_wire w None po0 = Ok m' /\
+                 map rclass (man m') <> map rclass (man m) /\ to_wire m' None 0 0 false 0 = Ok w.
+Proof. exact update_meta_spelling_refuted_lemma. Qed.
+Print Assumptions update_meta_spelling_refuted.
+
 (* the header counts equal the records present (record sets count one per record, an empty set one;
    OPT and TSIG count in the additional section), and the reader, which reads exactly that many
    records and rejects trailing octets, accepts the message *)
@@ -163,7 +173,9 @@ Definition ex_m : msg :=
          mkRR n_WWW 1 1 0 None 60 [[PB [1; 2; 3; 4]]]]
         [mkRR n_ex 1 6 0 None 3600 [[PN n_www; PN n_ex; PB (repeat 0 20)]]]
         [mkRR n_ex 1 16 0 None 5 [[PB [2; 104; 105]]]]
-        (Some (mkOpt 32768 1232 [(65001, [1; 2; 3])])) None.
+        (* options: one without a class, NSID, COOKIE (client+server), ECS 192.0.2.0/24, EDE 18 "ok", filtering contact "é" *)
+        (Some (mkOpt 32768 1232 [(65001, [1; 2; 3]); (3, [97]); (10, repeat 7 16); (8, [0; 1; 24; 0; 192; 0; 2]);
+                                 (15, [0; 18; 111; 107]); (23, [195; 169])])) None.
 
 Ltac pieces := repeat (cbn [piece_wf]; first [assumption | exact Logic.I | reflexivity | constructor]).
 Ltac solve_name_ok := split; [repeat split; [repeat constructor; vm_compute; discriminate | vm_compute; discriminate | repeat constructor; discriminate] | reflexivity].
@@ -213,7 +225,7 @@ Proof.
 Qed.
 
 Example render_parse_nonvacuous :
-  exists w m', to_wire ex_m None 0 0 false 0 = Ok w /\ zlen w = 147 /\
+  exists w m', to_wire ex_m None 0 0 false 0 = Ok w /\ zlen w = 197 /\
                from_wire w None po0 = Ok m' /\ msg_equiv m' ex_m /\
                (* the case variant WWW.EX.com. was written as a pointer and reads back as www.ex.com. *)
                map rname (man m') = [n_www; n_www].
